@@ -58,7 +58,8 @@ def main():
     checks, na = [], []
     for pid in sorted(T):
         tech, ref, text, note = T[pid]
-        if os.path.exists(os.path.join(ROOT, "checks", pid.lower() + ".py")):
+        ready = set(open(os.path.join(ROOT, "checks", "READY")).read().split())
+        if pid in ready and os.path.exists(os.path.join(ROOT, "checks", pid.lower() + ".py")):
             checks.append({
                 "property_id": pid,
                 "quick_cmd": f"./check {pid} quick",
